@@ -66,21 +66,40 @@ func HBodyError() {
 		root = head + "MACRO @mm\n(\n" + vIndent(block, 2) + ")\nPASTE @mm\n"
 		holder, holderText = "root.jst", root
 	}
+	// line ends of the whole project: LF / CRLF / CR (index, line, column and quote are those of
+	// the converted text)
+	term := byte('\n') // the byte that ends a line in this convention
+	conv := vInt("conv", 0, 2)
+	if conv != 0 {
+		nl := "\r\n"
+		if conv == 2 {
+			nl, term = "\r", '\r'
+		}
+		root = strings.ReplaceAll(root, "\n", nl)
+		holderText = strings.ReplaceAll(holderText, "\n", nl)
+		for k, v := range files {
+			files[k] = strings.ReplaceAll(v, "\n", nl)
+		}
+	}
 	_, je := vBuildProject(root, files)
 	vAssert(je != nil, "c07-invalid-body-accepted")
 	want := strings.Index(holderText, needle)
 	if mode == 1 && strings.Contains(k.before, "  Path\n") {
 		// the path-variable checks inspect the referenced types after all bodies were compiled
 		// and report at the keyword of the Path directive
-		want = strings.Index(holderText, "Path\n")
+		want = strings.Index(holderText, "  Path") + 2
 	}
 	vAssert(strings.HasSuffix(je.File.Name(), "/"+holder), "c07-body-error-in-wrong-file")
 	vAssert(int(je.Index) == want, "c07-body-error-index")
-	vAssert(int(je.Line) == vLineOf(holderText, want), "c07-body-error-line")
-	ls := strings.LastIndexByte(holderText[:want], '\n') + 1
+	vAssert(int(je.Line) == 1+strings.Count(holderText[:want], string([]byte{term})), "c07-body-error-line")
+	ls := strings.LastIndexByte(holderText[:want], term) + 1
 	vAssert(int(je.Column) == want-ls+1, "c07-body-error-column")
-	le := strings.IndexByte(holderText[want:], '\n')
-	vAssert(je.Quote == strings.TrimLeft(holderText[ls:want+le], " \t"), "c07-body-error-quote")
+	le := strings.IndexByte(holderText[want:], term)
+	quote := strings.TrimLeft(holderText[ls:want+le], " \t")
+	if conv == 1 {
+		quote = strings.TrimSuffix(quote, "\r")
+	}
+	vAssert(je.Quote == quote, "c07-body-error-quote")
 	vReach("body-error-located")
 	vObserve("err", int(je.Index), int(je.Line), int(je.Column))
 }
